@@ -11,6 +11,7 @@ import (
 	"net/http"
 	"sync"
 	"time"
+	"unicode/utf8"
 
 	"github.com/gorilla/websocket"
 	"github.com/vektah/gqlparser/v2/gqlerror"
@@ -315,7 +316,13 @@ func (c *wsConnection) run() {
 			if duplicate {
 				reason := fmt.Sprintf("Subscriber for %s already exists", m.id)
 				if len(reason) > maxCloseReasonLength {
-					reason = reason[:maxCloseReasonLength]
+					// cut on a rune boundary: a close reason has to be valid UTF-8 (RFC 6455
+					// section 5.5.1), clients fail the connection otherwise
+					n := maxCloseReasonLength
+					for n > 0 && !utf8.RuneStart(reason[n]) {
+						n--
+					}
+					reason = reason[:n]
 				}
 				c.sendConnectionError("%s", reason)
 				c.close(closeSubscriberAlreadyExists, reason)
